@@ -13,7 +13,7 @@ enum { TR_IDLE = 0, TR_HOLDER, TR_CYCLER, TR_SYNCER };
 
 struct appthr {
 	pthread_t tid;
-	int idx, role;
+	int idx, role, ktid;
 	struct vp_rng rng;
 	uint64_t sections, syncs;
 };
@@ -34,6 +34,7 @@ static void *app_main(void *arg)
 	int ncpu_slots = vp_ncpu > 1 ? vp_ncpu - 1 : 1;
 	vp_pin(1 + t->idx % ncpu_slots);
 	(void) vp_self();
+	__atomic_store_n(&t->ktid, (int) syscall(SYS_gettid), __ATOMIC_RELAXED);
 	switch (t->role) {
 	case TR_IDLE:
 		__atomic_fetch_add(&a->started, 1, __ATOMIC_SEQ_CST);
@@ -144,6 +145,17 @@ static void app_stop(struct appset *a)
 		pthread_join(a->t[i].tid, NULL);
 	if (g_app == a)
 		g_app = NULL;
+}
+
+static int app_is_tid(int tid)
+{
+	struct appset *a = g_app;
+	if (!a)
+		return 0;
+	for (int i = 0; i < a->n; i++)
+		if (__atomic_load_n(&a->t[i].ktid, __ATOMIC_RELAXED) == tid)
+			return 1;
+	return 0;
 }
 
 static int app_count_insec(struct appset *a)
